@@ -1,2 +1,551 @@
-use explorer::Report;
-pub fn run(rep: Report) -> i32 { rep.finish() }
+//! C23 Live mode forwards every new operation once to every other session.
+//!
+//! E-TASK: the real `TopicSyncManager` (on `MemStore`) with four real `TopicLogSync::run`
+//! sessions (ids 0,1,2 on topic T1, id 3 on topic T2) and the real `ManagerEventStream` polled by
+//! a consumer task.  The four remotes are scripted.  Every session is first driven through an
+//! empty sync phase into live mode (default schedule), then a script of <= N environment actions
+//! is played; the scheduler (which woken task runs next, and whether the next environment action
+//! happens before the system has settled) is explored by DFS within a deviation bound.
+use std::cell::RefCell;
+use std::collections::BTreeMap;
+use std::rc::Rc;
+
+use explorer::task::{block_on_quiescent, disown_select, own_select};
+use explorer::{catch, dfs_par, json, Chooser, DfsCfg, Report};
+use futures_util::{SinkExt, StreamExt};
+use p2panda_core::Topic;
+use p2panda_sync::manager::TopicSyncManager;
+use p2panda_sync::protocols::{LogSyncMessage, TopicLogSyncEvent};
+use p2panda_sync::traits::{Manager, Protocol};
+use p2panda_sync::{SessionConfig, ToSync};
+use refmodel::MemStore;
+use tokio::sync::broadcast;
+
+use crate::fixtures::{fix, key, topic, Event, Msg, E, L};
+use crate::pipe::{pipe, push, Faults, Handle, Io, Item};
+use crate::sched::{EnvExec, Pick};
+
+const N_SESSIONS: usize = 4;
+/// Topic of each session: three on T1, one on T2.
+const TOPIC_OF: [u8; N_SESSIONS] = [1, 1, 1, 2];
+const OP_NAMES: [&str; 2] = ["x", "y"];
+
+#[derive(Clone, Copy, Debug, PartialEq, Eq, Hash, PartialOrd, Ord)]
+pub enum Action {
+    /// Remote of session s sends Live(op).
+    Recv(usize, usize),
+    /// The application publishes op through the session handle of session s.
+    Publish(usize, usize),
+    /// The application sends ToSync::Close through the handle of session s.
+    LocalClose(usize),
+    /// Remote of session s sends a Close frame.
+    RemoteClose(usize),
+}
+
+impl Action {
+    fn session(&self) -> usize {
+        match *self {
+            Action::Recv(s, _) | Action::Publish(s, _) | Action::LocalClose(s) | Action::RemoteClose(s) => s,
+        }
+    }
+    fn op(&self) -> Option<usize> {
+        match *self {
+            Action::Recv(_, o) | Action::Publish(_, o) => Some(o),
+            _ => None,
+        }
+    }
+    fn text(&self) -> String {
+        match *self {
+            Action::Recv(s, o) => format!("remote{s}->Live({})", OP_NAMES[o]),
+            Action::Publish(s, o) => format!("publish({}) via handle{s}", OP_NAMES[o]),
+            Action::LocalClose(s) => format!("ToSync::Close via handle{s}"),
+            Action::RemoteClose(s) => format!("remote{s}->Close"),
+        }
+    }
+}
+
+fn alphabet() -> Vec<Action> {
+    let mut a = vec![];
+    for s in 0..N_SESSIONS {
+        for o in 0..2 {
+            a.push(Action::Recv(s, o));
+        }
+    }
+    for s in 0..3 {
+        for o in 0..2 {
+            a.push(Action::Publish(s, o));
+        }
+    }
+    for s in 0..3 {
+        a.push(Action::LocalClose(s));
+        a.push(Action::RemoteClose(s));
+    }
+    a
+}
+
+/// Canonical scripts: the three T1 sessions are named in order of first use, the two operations
+/// likewise; nothing is addressed to a session after its Close action.
+fn scripts(max_len: usize) -> Vec<Vec<Action>> {
+    fn rec(alpha: &[Action], cur: &mut Vec<Action>, max_len: usize, out: &mut Vec<Vec<Action>>) {
+        if !cur.is_empty() {
+            out.push(cur.clone());
+        }
+        if cur.len() == max_len {
+            return;
+        }
+        let used_sessions = cur.iter().map(|a| a.session()).filter(|&s| s < 3).max().map(|m| m + 1).unwrap_or(0);
+        let used_ops = cur.iter().filter_map(|a| a.op()).max().map(|m| m + 1).unwrap_or(0);
+        for a in alpha {
+            let s = a.session();
+            if s < 3 && s > used_sessions {
+                continue;
+            }
+            if let Some(o) = a.op() {
+                if o > used_ops {
+                    continue;
+                }
+            }
+            if cur.iter().any(|b| {
+                b.session() == s && matches!(b, Action::LocalClose(_) | Action::RemoteClose(_))
+            }) {
+                continue;
+            }
+            cur.push(*a);
+            rec(alpha, cur, max_len, out);
+            cur.pop();
+        }
+    }
+    let mut out = vec![];
+    rec(&alphabet(), &mut vec![], max_len, &mut out);
+    // A script without any operation cannot exercise the property.
+    out.retain(|s| s.iter().any(|a| a.op().is_some()));
+    out
+}
+
+/// Short frame description for the I/O log: live operations by index, everything else by kind.
+#[derive(Clone, Debug, PartialEq, Eq, Hash)]
+pub enum D {
+    Live(usize),
+    LiveOther,
+    Sync,
+    Close,
+}
+
+fn describe(m: &Msg) -> D {
+    match m {
+        Msg::Live(h, _) => {
+            let f = fix();
+            match f.third.iter().position(|s| s.op.hash == h.hash()) {
+                Some(i) => D::Live(i),
+                None => D::LiveOther,
+            }
+        }
+        Msg::Sync(_) => D::Sync,
+        Msg::Close => D::Close,
+    }
+}
+
+fn is_close(m: &Msg) -> bool {
+    matches!(m, Msg::Close)
+}
+
+#[derive(Clone, Debug, PartialEq, Eq, Hash)]
+enum SessEnd {
+    Live,
+    Finished,
+    Failed(String),
+}
+
+#[derive(Clone, Debug, PartialEq, Eq, Hash)]
+struct Obs {
+    setup_ok: bool,
+    /// Per session: ordered I/O log of the live phase.
+    io: Vec<Vec<Io<D>>>,
+    /// Per session: operations announced with OperationReceived on the session's own channel.
+    accepted: Vec<Vec<usize>>,
+    /// What the consumer of the manager event stream saw: (session id, op index).
+    consumer_ops: Vec<(u64, usize)>,
+    ends: Vec<SessEnd>,
+    panic: Option<String>,
+    horizon: bool,
+    performed: Vec<Action>,
+}
+
+fn run_one(script: &[Action], sub_mode: usize, ch: &Chooser) -> Obs {
+    let f = fix();
+    let store = MemStore::new();
+    let mut manager = TopicSyncManager::<Topic, MemStore, L, E>::new(store);
+    let results: Vec<Rc<RefCell<Option<Result<(), String>>>>> =
+        (0..N_SESSIONS).map(|_| Rc::new(RefCell::new(None))).collect();
+    let consumer_log: Rc<RefCell<Vec<(u64, Event)>>> = Rc::new(RefCell::new(vec![]));
+    let mut pipes: Vec<Handle<Msg, D>> = vec![];
+    let mut observers: Vec<broadcast::Receiver<Event>> = vec![];
+    let mut performed = vec![];
+    let mut panic = None;
+    let mut horizon = false;
+    let mut setup_ok = true;
+
+    let setup = Chooser::new(vec![]);
+    own_select(&setup);
+    let r = catch(|| {
+        let mut ex = EnvExec::new();
+        let mut events = None;
+        let mut session_futs = vec![];
+        for id in 0..N_SESSIONS {
+            if (sub_mode == 0 && id == 0) || (sub_mode == 1 && id == 2) {
+                events = Some(manager.subscribe());
+            }
+            let config = SessionConfig {
+                topic: topic(TOPIC_OF[id]),
+                remote: key(10 + id as u8).verifying_key(),
+                live_mode: true,
+            };
+            let session = block_on_quiescent(manager.session(id as u64, &config), 100)
+                .expect("manager.session completes");
+            observers.push(session.event_tx.subscribe());
+            let (sink, stream, h) = pipe(
+                vec![
+                    Item::Msg(Msg::Sync(LogSyncMessage::Have(BTreeMap::new()))),
+                    Item::Msg(Msg::Sync(LogSyncMessage::Done)),
+                ],
+                Faults::default(),
+                describe as fn(&Msg) -> D,
+                is_close as fn(&Msg) -> bool,
+            );
+            h.borrow_mut().auto_end_on_close = true;
+            pipes.push(h);
+            session_futs.push((session, sink, stream));
+        }
+        let mut events = match events {
+            Some(e) => e,
+            None => manager.subscribe(),
+        };
+        let mut handles = vec![];
+        for id in 0..N_SESSIONS {
+            handles.push(
+                block_on_quiescent(manager.session_handle(id as u64), 100)
+                    .expect("session_handle completes")
+                    .expect("handle exists"),
+            );
+        }
+        for (id, (session, mut sink, mut stream)) in session_futs.into_iter().enumerate() {
+            let res = results[id].clone();
+            ex.spawn(async move {
+                let r = session.run(&mut sink, &mut stream).await;
+                *res.borrow_mut() = Some(r.map_err(|e| e.to_string()));
+            });
+        }
+        {
+            let log = consumer_log.clone();
+            ex.spawn(async move {
+                while let Some(ev) = events.next().await {
+                    log.borrow_mut().push((ev.session_id, ev.event));
+                }
+            });
+        }
+        // Phase 1: default schedule through the empty sync phase into live mode.
+        loop {
+            match ex.step(&setup, false) {
+                Pick::Quiescent => break,
+                _ => {}
+            }
+            if ex.steps > 2_000 {
+                setup_ok = false;
+                break;
+            }
+        }
+        let live_started = consumer_log
+            .borrow()
+            .iter()
+            .filter(|(_, e)| matches!(e, TopicLogSyncEvent::LiveModeStarted))
+            .count();
+        if live_started != N_SESSIONS || (0..N_SESSIONS).any(|i| ex.is_done(i)) {
+            setup_ok = false;
+        }
+        for p in &pipes {
+            p.borrow_mut().log.clear();
+        }
+        // Phase 2: the script under the explored schedule.
+        own_select(ch);
+        let start = ex.steps;
+        let mut next = 0;
+        loop {
+            match ex.step(ch, next < script.len()) {
+                Pick::Task(_) => {}
+                Pick::Quiescent => break,
+                Pick::Env => {
+                    let a = script[next];
+                    next += 1;
+                    performed.push(a);
+                    match a {
+                        Action::Recv(s, o) => push(&pipes[s], Item::Msg(f.third[o].live())),
+                        Action::RemoteClose(s) => push(&pipes[s], Item::Msg(Msg::Close)),
+                        Action::Publish(s, o) => {
+                            let _ = block_on_quiescent(
+                                handles[s].send(ToSync::Payload(f.third[o].op.clone())),
+                                100,
+                            );
+                        }
+                        Action::LocalClose(s) => {
+                            let _ = block_on_quiescent(handles[s].send(ToSync::Close), 100);
+                        }
+                    }
+                }
+            }
+            if ex.steps - start > 5_000 {
+                horizon = true;
+                break;
+            }
+        }
+    });
+    disown_select();
+    if let Err(p) = r {
+        panic = Some(p);
+    }
+    let op_index = |e: &Event| -> Option<usize> {
+        if let TopicLogSyncEvent::OperationReceived { operation, .. } = e {
+            f.third.iter().position(|s| s.op.hash == operation.hash)
+        } else {
+            None
+        }
+    };
+    let mut accepted = vec![];
+    for rx in observers.iter_mut() {
+        let mut v = vec![];
+        loop {
+            match rx.try_recv() {
+                Ok(e) => {
+                    if let Some(i) = op_index(&e) {
+                        v.push(i);
+                    }
+                }
+                Err(broadcast::error::TryRecvError::Lagged(_)) => continue,
+                Err(_) => break,
+            }
+        }
+        accepted.push(v);
+    }
+    let consumer_ops = consumer_log
+        .borrow()
+        .iter()
+        .filter_map(|(sid, e)| op_index(e).map(|i| (*sid, i)))
+        .collect();
+    let ends = results
+        .iter()
+        .map(|r| match &*r.borrow() {
+            None => SessEnd::Live,
+            Some(Ok(())) => SessEnd::Finished,
+            Some(Err(e)) => SessEnd::Failed(e.clone()),
+        })
+        .collect();
+    Obs {
+        setup_ok,
+        io: pipes.iter().map(|p| p.borrow().log.clone()).collect(),
+        accepted,
+        consumer_ops,
+        ends,
+        panic,
+        horizon,
+        performed,
+    }
+}
+
+struct Verdict {
+    violations: Vec<(String, String)>,
+    /// Some operation reached the topic from two sources (duplicate across/within sessions or
+    /// remote + local publish) and at least one forward was observed.
+    nontrivial: bool,
+    forwards: usize,
+}
+
+fn judge(obs: &Obs) -> Verdict {
+    let mut v: Vec<(String, String)> = vec![];
+    if let Some(p) = &obs.panic {
+        let short: String = p.chars().take(60).collect();
+        v.push((format!("panic/{short}"), format!("panic during the execution: {p}")));
+    }
+    if obs.horizon {
+        v.push(("livelock/step-horizon".into(), "more than 5000 scheduling steps after setup".into()));
+    }
+    for (t, e) in obs.ends.iter().enumerate() {
+        if let SessEnd::Failed(e) = e {
+            v.push((
+                "session-failed-in-live-mode".into(),
+                format!("session {t} ended with error '{e}' although its remote only sent Live/Close frames"),
+            ));
+        }
+    }
+    let published = |t: usize, o: usize| obs.performed.contains(&Action::Publish(t, o));
+    let closing = |t: usize| {
+        obs.performed
+            .iter()
+            .any(|a| matches!(a, Action::LocalClose(s) | Action::RemoteClose(s) if *s == t))
+    };
+    let ins = |t: usize, o: usize| obs.io[t].iter().filter(|x| **x == Io::In(D::Live(o))).count();
+    let outs = |t: usize, o: usize| obs.io[t].iter().filter(|x| **x == Io::Out(D::Live(o))).count();
+    let mut forwards = 0;
+    let mut collide = false;
+    for o in 0..2 {
+        let name = OP_NAMES[o];
+        let sources: usize = (0..N_SESSIONS).map(|t| ins(t, o) + usize::from(published(t, o))).sum();
+        if sources >= 2 {
+            collide = true;
+        }
+        for t in 0..N_SESSIONS {
+            let n_out = outs(t, o);
+            if n_out > 1 {
+                v.push((
+                    "duplicate-send/op-sent-twice-to-same-remote".into(),
+                    format!("session {t} wrote Live({name}) {n_out} times to its remote"),
+                ));
+            }
+            // echo: an Out(o) after an In(o) in the same session
+            let first_in = obs.io[t].iter().position(|x| *x == Io::In(D::Live(o)));
+            let last_out = obs.io[t].iter().rposition(|x| *x == Io::Out(D::Live(o)));
+            if let (Some(i), Some(j)) = (first_in, last_out) {
+                if j > i {
+                    v.push((
+                        "echo/op-sent-back-to-the-peer-it-came-from".into(),
+                        format!("session {t} wrote Live({name}) to its remote after having received Live({name}) from that remote"),
+                    ));
+                }
+            }
+            if n_out >= 1 && !published(t, o) {
+                forwards += 1;
+                let same_topic_source = (0..N_SESSIONS)
+                    .any(|s| s != t && TOPIC_OF[s] == TOPIC_OF[t] && ins(s, o) > 0);
+                if !same_topic_source {
+                    let other_topic_source =
+                        (0..N_SESSIONS).any(|s| TOPIC_OF[s] != TOPIC_OF[t] && (ins(s, o) > 0 || published(s, o)));
+                    if other_topic_source {
+                        v.push((
+                            "cross-topic-forward".into(),
+                            format!("session {t} (topic T{}) wrote Live({name}) although {name} only ever arrived on the other topic", TOPIC_OF[t]),
+                        ));
+                    } else {
+                        v.push((
+                            "spurious-send".into(),
+                            format!("session {t} wrote Live({name}) although no other session of its topic received it and it was not published to it"),
+                        ));
+                    }
+                }
+            }
+        }
+        // completeness, for operations that reached this node only from remotes
+        let locally_published = (0..N_SESSIONS).any(|t| published(t, o));
+        if !locally_published && !obs.horizon && obs.panic.is_none() {
+            for topic_id in [1u8, 2u8] {
+                let members: Vec<usize> = (0..N_SESSIONS).filter(|&t| TOPIC_OF[t] == topic_id).collect();
+                let receivers: Vec<usize> = members.iter().copied().filter(|&t| ins(t, o) > 0).collect();
+                if receivers.is_empty() {
+                    continue;
+                }
+                for &t in &members {
+                    if receivers.contains(&t) || obs.ends[t] != SessEnd::Live || closing(t) {
+                        continue;
+                    }
+                    if outs(t, o) != 1 {
+                        v.push((
+                            "not-forwarded/live-session-missed-op".into(),
+                            format!("Live({name}) was received by session(s) {receivers:?} of topic T{topic_id}, session {t} is live on the same topic and never received it from its own remote, but wrote Live({name}) {} times", outs(t, o)),
+                        ));
+                    }
+                }
+            }
+        }
+        let seen = obs.consumer_ops.iter().filter(|(_, i)| *i == o).count();
+        if seen > 1 {
+            v.push((
+                "consumer-duplicate/op-reported-twice".into(),
+                format!("the manager event stream reported OperationReceived({name}) {seen} times: {:?}", obs.consumer_ops),
+            ));
+        }
+    }
+    Verdict {
+        violations: v,
+        nontrivial: collide && forwards > 0,
+        forwards,
+    }
+}
+
+pub fn run(mut rep: Report) -> i32 {
+    let thorough = rep.thorough();
+    let (max_len, max_dev, sub_modes) = if thorough { (4usize, 2usize, 3usize) } else { (3, 1, 3) };
+    rep.rule = "execution = (canonical action script, where the consumer subscribed, schedule); non-trivial when some operation reached the node from at least two sources (two remotes, the same remote twice, or remote + local publish) and at least one forward to another session's remote was observed".into();
+    rep.assume("scripts are canonical up to renaming of the three same-topic sessions and of the two operations (first use order); the manager keys sessions by id in hash maps and does not order them");
+    rep.assume("nothing is addressed to a session after its Close action; a scripted remote closes its stream when it receives a Close frame");
+    rep.assume("'the peer it came from' is read per session: a session never writes an operation to its remote after having read that operation from that remote; 'forwarded to every other live session' is demanded at quiescence for sessions that are still live, were not asked to close, and did not receive the operation from their own remote; it is demanded only for operations that were never published locally in the execution");
+    rep.assume("all sessions complete an empty sync phase under the default schedule before the script starts; the schedule of the setup phase is not explored");
+    rep.assume("de-duplication windows (1024) are never exceeded (2 operations)");
+    rep.assume("std RandomState decides HashSet/HashMap iteration order inside SessionTopicMap and TopicSyncManager::subscribe; it only permutes the order of channel sends inside one poll, which E-TASK's scheduling rule (lowest task id among the woken) does not observe");
+    rep.assume("MemStore (refmodel) instead of SqliteStore; no tokio runtime: sessions, manager event stream and consumer are E-TASK tasks");
+
+    let all_scripts = scripts(max_len);
+    rep.set("scripts", json!(all_scripts.len()));
+    rep.set("alphabet", json!(alphabet().iter().map(|a| a.text()).collect::<Vec<_>>()));
+    rep.set("max_script_len", json!(max_len));
+    let cfg = DfsCfg {
+        max_dev,
+        max_execs: u64::MAX,
+        wall: std::time::Duration::from_secs(if thorough { 540 } else { 30 }),
+        threads: rep.args.threads,
+    };
+    let mut first: BTreeMap<String, (Vec<u32>, Obs)> = BTreeMap::new();
+    let mut total_forwards = 0u64;
+    let n_scripts = all_scripts.len();
+    let st = dfs_par(
+        &cfg,
+        |ch| {
+            let si = ch.choose_free(n_scripts, "script");
+            let sub = ch.choose_free(sub_modes, "subscribe");
+            let obs = run_one(&all_scripts[si], sub, ch);
+            (si, sub, obs)
+        },
+        |ch, (si, sub, obs)| {
+            let script = &all_scripts[si];
+            let verdict = judge(&obs);
+            total_forwards += verdict.forwards as u64;
+            if !obs.setup_ok {
+                rep.machinery_error(format!("C23 setup phase did not bring all sessions into live mode (script {si}, subscribe mode {sub})"));
+            }
+            rep.state(&(&obs.io, &obs.consumer_ops, &obs.ends));
+            rep.outcome(&(&obs.io, &obs.accepted, &obs.consumer_ops, &obs.ends));
+            if verdict.nontrivial {
+                rep.nontrivial(&(si, sub, ch.vector()));
+                if rep.want_sample() && si % 97 == 13 {
+                    rep.sample(json!({
+                        "script": script.iter().map(|a| a.text()).collect::<Vec<_>>(),
+                        "subscribe_mode": sub, "choices": ch.describe(),
+                        "io_per_session": format!("{:?}", obs.io),
+                        "consumer_ops": format!("{:?}", obs.consumer_ops),
+                    }));
+                }
+            }
+            for (key, detail) in verdict.violations {
+                let what = format!(
+                    "script [{}], consumer subscribed {}, {} deviation(s): {}. I/O per session: {:?}; consumer saw {:?}; session ends {:?}",
+                    script.iter().map(|a| a.text()).collect::<Vec<_>>().join("; "),
+                    ["before the sessions were created", "after two sessions were created", "after all sessions were created"][sub],
+                    ch.deviations(), detail, obs.io, obs.consumer_ops, obs.ends
+                );
+                let replay = json!({"part": "live", "script_index": si, "script": format!("{script:?}"), "subscribe_mode": sub, "vector": ch.vector(), "choices": ch.describe()});
+                first.entry(key.clone()).or_insert_with(|| (ch.vector(), obs.clone()));
+                rep.violation(key, what, replay);
+            }
+        },
+    );
+    for (key, (vector, obs)) in first {
+        for _ in 0..2 {
+            let ch = Chooser::new(vector.clone());
+            let si = ch.choose_free(n_scripts, "script");
+            let sub = ch.choose_free(sub_modes, "subscribe");
+            let again = run_one(&all_scripts[si], sub, &ch);
+            if again != obs {
+                rep.machinery_error(format!("C23: witness of {key} is not reproducible (uncaptured nondeterminism)"));
+            }
+        }
+    }
+    rep.absorb_dfs("live", &st, max_dev);
+    rep.set("forwards_observed", json!(total_forwards));
+    rep.finish()
+}
